@@ -443,6 +443,41 @@ theorem restart_observe_volumes (vs : List Vol) (h : ∀ v ∈ vs, v.available =
   intro v hv
   simp [h v hv]
 
+/-- **available exactly when its file opens — at EVERY restart.**  Whatever happened before (files lost and
+restored any number of times, earlier restarts with the file missing), right after a restart each volume is
+available iff its data file opens now; in particular a volume whose file is back is available again. -/
+theorem volumes_available_at_every_restart (vs : List Vol) (evs : List VEv) :
+    ∀ v ∈ vrun vs (evs ++ [.restart]), v.available = v.fileOk := by
+  intro v hv
+  simp only [vrun, List.foldl_append, List.foldl_cons, List.foldl_nil, vstep, restartVols, List.mem_map] at hv
+  obtain ⟨u, _, rfl⟩ := hv
+  rfl
+
+theorem any_congr_mem {α : Type} (l : List α) (p q : α → Bool) (h : ∀ a ∈ l, p a = q a) : l.any p = l.any q := by
+  induction l with
+  | nil => rfl
+  | cons a rest ih =>
+    simp only [List.any_cons, h a (by simp)]
+    rw [ih (fun b hb => h b (by simp [hb]))]
+
+/-- … hence a write succeeds after a restart iff some volume whose file opens has room -/
+theorem write_iff_file_and_room (vs : List Vol) (evs : List VEv) :
+    canWrite (vrun vs (evs ++ [.restart])) = (vrun vs (evs ++ [.restart])).any fun v => v.fileOk && v.room := by
+  have h := volumes_available_at_every_restart vs evs
+  simp only [canWrite]
+  apply any_congr_mem
+  intro v hv
+  rw [h v hv]
+
+/-- the two-restart sequence: file missing at one restart, back at the next — available again; a `loadVolumes`
+that only confirms already-available volumes leaves it unavailable for good and nothing can be written -/
+example :
+    let evs : List VEv := [.setFile 1 false, .restart, .setFile 1 true, .restart]
+    observeVols (vrun [⟨1, true, true, true⟩] evs) = [(1, true)] ∧
+    canWrite (vrun [⟨1, true, true, true⟩] evs) = true ∧
+    observeVols (restartVolsSticky (vstep (restartVolsSticky (vstep [⟨1, true, true, true⟩] (.setFile 1 false))) (.setFile 1 true)))
+      = [(1, false)] := by decide
+
 end Restart
 
 /-- **restart_observe (index tip).**  With the in-memory tip equal to the persisted marker (the invariant
